@@ -1332,9 +1332,18 @@ impl Gen {
                     1 | 3 => {
                         let n = node?;
                         let out = self.fresh(task);
-                        let next = if stage == 1 { Some(Proc::TextPair { el, a, b, node: None, stage: 2 }) } else { None };
+                        // (then, sometimes, normalize(): the two halves become one node holding the joined data, which
+                        // must still be written so that it parses back)
+                        let next = if stage == 1 {
+                            Some(Proc::TextPair { el, a, b, node: None, stage: 2 })
+                        } else if self.rng.pct(35) {
+                            Some(Proc::TextPair { el, a, b, node: None, stage: 4 })
+                        } else {
+                            None
+                        };
                         (Some(Op::AppendChild { recv: el, new: n, out }), next)
                     }
+                    4 => (Some(Op::Normalize { el }), None),
                     _ => (None, None),
                 }
             }
